@@ -5,6 +5,7 @@ package main
 // caller's own format parameter together with the caller's own variadic.
 
 import (
+	"go/constant"
 	"fmt"
 	"go/ast"
 	"go/types"
@@ -41,6 +42,48 @@ func printfStyle(sig *types.Signature) (int, bool) {
 		return 0, false
 	}
 	return n - 2, true
+}
+
+// verbsFit checks a constant format against the number of arguments passed:
+// every verb known to fmt, %w only where fmt.Errorf interprets it, as many
+// verbs as arguments.  Formats using explicit argument indexes or * are only
+// checked for their verbs.
+func verbsFit(format string, nargs int, isErrorf bool) string {
+	n := 0
+	exact := true
+	for i := 0; i < len(format); i++ {
+		if format[i] != '%' {
+			continue
+		}
+		i++
+		if i >= len(format) {
+			return "format ends in a lone %"
+		}
+		if format[i] == '%' {
+			continue
+		}
+		for i < len(format) && strings.ContainsRune("+-# 0123456789.*[]", rune(format[i])) {
+			if format[i] == '*' || format[i] == '[' {
+				exact = false
+			}
+			i++
+		}
+		if i >= len(format) {
+			return "format ends inside a verb"
+		}
+		v := format[i]
+		if !strings.ContainsRune("vTtbcdoOqxXUeEfFgGspw", rune(v)) {
+			return fmt.Sprintf("unknown verb %%%c in a constant format", v)
+		}
+		if v == 'w' && !isErrorf {
+			return "%w is only interpreted by fmt.Errorf; here the notice would contain %!w(...)"
+		}
+		n++
+	}
+	if exact && n != nargs {
+		return fmt.Sprintf("constant format has %d verbs but %d arguments are passed (the notice would contain %%!v(MISSING) or %%!(EXTRA ...))", n, nargs)
+	}
+	return ""
 }
 
 func constfmtCheck(w *World, tier string, seed int64) extraResult {
@@ -136,6 +179,15 @@ func constfmtCheck(w *World, tier string, seed int64) extraResult {
 						why := ""
 						if atv, ok := info.Types[arg]; ok && atv.Value != nil {
 							okc = true
+							// a constant format must also fit its arguments: no verb
+							// the formatter would render as an artefact (%!w(...),
+							// %!(EXTRA ...), %!v(MISSING))
+							if atv.Value.Kind() == constant.String && !y.Ellipsis.IsValid() {
+								if msg := verbsFit(constant.StringVal(atv.Value), len(y.Args)-idx-1, callee == "fmt.Errorf"); msg != "" {
+									okc = false
+									why = msg
+								}
+							}
 						} else if id, isID := ast.Unparen(arg).(*ast.Ident); isID && cur != nil && cur.formatP != nil && info.Uses[id] == cur.formatP {
 							// forwarded format: must forward the caller's own variadic too
 							if y.Ellipsis.IsValid() && len(y.Args) == idx+2 {
